@@ -143,6 +143,9 @@ def _val(draw, var, cls, depth, model, names, miss):
             v2 = draw(st.sampled_from(names))
             inner = draw(_val(v2, "Trk", depth - 1, model, names, miss))
             return ["count", ["op", "Select", ["fn", pos, kw, "mks"], v2, inner]]
+        if z == 2 and not any(_kind(q) == "po" for q in model["fn"]):
+            # a registered FUNCTION whose first parameter happens to be called self: a declared parameter like any other
+            return ["fn", [["const", "9"]] + pos, kw, "fself"]
         return ["fn", pos, kw]
     if c == 7 and cls == "Jet":
         pos, kw = draw(_shape(model["Jet.obj"], arg, miss))
@@ -289,6 +292,7 @@ def build_model(model, alias="val", kinds=None):
                     recv = kind.split(":")[1] if kind.startswith("recv:") else "self"  # nothing forces the receiver to be spelled self
                     src.append(f"    def {meth}({recv}{', ' + ps if ps else ''}) -> '{ret[key]}': ...")
     src.append(f"def fn({params(model['fn'], 'fn')}) -> float: ...")
+    src.append(f"def fself({params([['self', False, None]] + [q for q in model['fn'] if _kind(q) != 'po'], 'fself')}) -> float: ...")
     src.append(f"def mk({params(model['fn'], 'mk')}) -> 'Trk': ...")
     src.append(f"def mks({params(model['fn'], 'mks')}) -> 'Iterable[Trk]': ...")
     exec("\n".join(src), ns)
@@ -399,6 +403,7 @@ def check(case) -> Result:
     ns = build_model(case["model"], case.get("alias", "val"), case.get("kinds"))
     func_adl_callable()(ns["fn"])
     func_adl_callable()(ns["mk"])
+    func_adl_callable()(ns["fself"])
     func_adl_callable()(ns["mks"])
 
     class DS(EventDataset):
